@@ -54,17 +54,19 @@ Theorem c06_covers_meaning : forall r w, covers r w = true ->
    else wk_prefix w = false /\ rk_key r = wk_key w).
 Proof. exact covers_spec. Qed.
 
-(** 3. Array shapes agree: for power 1..4, every displacement array row the writer produces has exactly the number
-    of values the reader insists on (for every alternative of the element expression), rows index inside the vertex
-    grid, and no more rows are written than the reader can index. *)
+(** 3. Array shapes agree: for power 1..4, row y of every displacement array the writer produces holds exactly the
+    vertices size*y .. the reader indexes for that row, with exactly the number of values the reader insists on (for
+    every alternative of the element expression); as many rows are written as a row has entries (all vertices, resp.
+    all quads, are written), and never more rows than the reader can index. *)
 Theorem c06_disp_rows_agree : forall (sz : Z -> Z) (l : list disp_array),
   disp_shapes_ok sz l = true ->
   forall a p, In a l -> In p powers ->
   (da_rows a (sz p) <= sz p /\
+  (forall ar, In ar (da_arity a) -> da_rows a (sz p) * ar = da_rcols a p (sz p)) /\
   forall y, 0 <= y < da_rows a (sz p) ->
   forall ar, In ar (da_arity a) ->
     (da_hi a (sz p) y - da_lo a (sz p) y) * ar = da_rcols a p (sz p)
-    /\ 0 <= da_lo a (sz p) y /\ da_hi a (sz p) y <= sz p * sz p)%Z.
+    /\ da_lo a (sz p) y = sz p * y /\ da_hi a (sz p) y <= sz p * sz p)%Z.
 Proof. exact disp_shapes_sound. Qed.
 
 (** 4. Numbers: correctly rounded decimal output denotes a number within half a unit of the last place.
